@@ -48,7 +48,7 @@ def one(t):
             for lr in lroots:
                 os.symlink(os.path.relpath(link_target, tree.base), os.path.join(tree.base, lr))
             cfg = dict(cfg, roots=gg.ROOTS + lroots)
-        staged = pid in ("C01", "C03", "C06") and not cfg.get("transform") and not cfg.get("roots")
+        staged = pid in ("C01", "C03", "C06") and not cfg.get("roots")
         trace = os.path.join(tree.work, "stages.ndjson") if staged else None
         env = tree.env(disk_kind=cfg.get("disk_kind"), trace=trace)
         args = gg.group_args(cfg, "json")
@@ -159,9 +159,9 @@ def main(pid, tier):
     if pid in ("C01", "C03", "C06"):
         # the design: every input of a small universe (byte strings, link structure, filters, unreadable identity) and every
         # order of the hashing tasks of the staged pipeline keeps Sound / Complete / NeverSplit / FilterHonoured (Grouping.tla)
-        cfgs = ["quick", "iso", "thorough"] if thorough else (["quick", "isoq"] if pid == "C06" else ["quick"])
+        cfgs = ["quick", "quickT", "iso", "thorough"] if thorough else {"C01": ["quick", "quickT"], "C03": ["quick"], "C06": ["isoq"]}[pid]
         for c in cfgs:
-            res = lib.run_tlc("MC_Grouping.tla", f"MC_Grouping_{c}.cfg", workers=12 if thorough else 8, timeout=7200, coverage=(c == "quick"), xmx="24g")
+            res = lib.run_tlc("MC_Grouping.tla", f"MC_Grouping_{c}.cfg", workers=12 if thorough else 8, timeout=7200, coverage=c.startswith("quick"), xmx="24g")
             chk.add_tlc(f"MC_Grouping_{c}(staged pipeline, all inputs of the small universe x all task orders)", res)
             if res.violation:
                 chk.violation(f"{pid}/model {res.violation}", "Grouping.tla (the staged pipeline as specified) violates " + res.violation, {"tlc": res.output[-3000:]})
